@@ -77,6 +77,8 @@ type Options struct {
 	// CachedLag / DynCacheLag: commits of staleness for the manager's cached client and the dynamic cache.
 	CachedLag   func() int64
 	DynCacheLag func() int64
+	// CachedHideYoung: objects created within the last n commits are invisible to the manager's cached client.
+	CachedHideYoung func() int64
 	// Controllers to build (nil = the ObjectSet family).
 	Controllers []string
 	// Extra is used by packages of the harness that add controllers (packages, templates).
@@ -102,6 +104,8 @@ type World struct {
 	Passes  []*simkube.Pass
 	// Restarts counts simulated process restarts.
 	Restarts int
+	// Fresh: caches have caught up (no lag, nothing hidden); set while a scenario settles.
+	Fresh bool
 }
 
 var (
@@ -163,7 +167,19 @@ func NewWorld(o Options) (*World, error) {
 // controllers. Only the stores survive. Calling it again simulates a process restart.
 func (w *World) Build() {
 	o := w.Opts
-	w.Cached = w.Store.Client(Scheme, simkube.Role{Name: "cached", Lag: o.CachedLag, ResetOnRead: true})
+	wrap := func(f func() int64) func() int64 {
+		if f == nil {
+			return nil
+		}
+		return func() int64 {
+			if w.Fresh {
+				return 0
+			}
+			return f()
+		}
+	}
+	o.CachedLag, o.CachedHideYoung, o.DynCacheLag = wrap(o.CachedLag), wrap(o.CachedHideYoung), wrap(o.DynCacheLag)
+	w.Cached = w.Store.Client(Scheme, simkube.Role{Name: "cached", Lag: o.CachedLag, HideYoung: o.CachedHideYoung, ResetOnRead: true})
 	w.Uncached = w.Store.Client(Scheme, simkube.Role{Name: "uncached"})
 	w.CacheMap = simcache.NewMap(func(gvk schema.GroupVersionKind) client.Reader {
 		return w.Store.Client(Scheme, simkube.Role{Name: "dyncache", Lag: o.DynCacheLag, Selector: cacheSelector})
